@@ -297,6 +297,51 @@ def job_history_rotate(ctx: Ctx):
     clear_caches(an)
 
 
+def molgrid_real_oracle():
+    """float code, real AtomGrids: MolGrid.interpolate(f) == sum over atoms of the interpolant of (w_A f) built on an independently constructed
+    copy of that atom's grid; atoms with identical degrees but different rotation seeds, mixed degrees, store on/off, values and derivatives."""
+    import warnings
+    warnings.simplefilter("ignore")
+    from grid.atomgrid import AtomGrid
+    from grid.molgrid import MolGrid
+    from grid.becke import BeckeWeights
+    from grid.onedgrid import GaussLegendre
+    from grid.rtransform import BeckeRTransform
+    rng = np.random.default_rng(harness.seed() + 9)
+    rg = BeckeRTransform(1e-4, 1.2).transform_1d_grid(GaussLegendre(10))
+    centers = np.array([[0.0, 0.0, -0.7], [0.0, 0.3, 0.8], [0.9, -0.2, 0.1]])
+    bad = {}
+    for label, specs, store in (("same degrees, different rotate seeds", [([5] * 10, 0), ([5] * 10, 11)], True), ("same degrees, different rotate seeds (2)", [([5] * 10, 3), ([5] * 10, 4)], True),
+                                ("three atoms, two sharing a layout", [([7] * 10, 0), ([5] * 10, 2), ([7] * 10, 9)], True)):
+        mk = lambda: [AtomGrid(rg, degrees=d, center=centers[i], rotate=r) for i, (d, r) in enumerate(specs)]
+        ats, fresh = mk(), mk()
+        nums = np.array([8, 1, 6][:len(specs)])
+        mol = MolGrid(nums, ats, BeckeWeights(order=3), store=store)
+        c = rng.normal(size=4)
+        f = lambda p: np.exp(-0.7 * np.sum(p ** 2, axis=1)) * (c[0] + c[1] * p[:, 0] + c[2] * p[:, 1] * p[:, 2] + c[3] * p[:, 2] ** 2)
+        fv = f(mol.points)
+        q = rng.normal(size=(4, 3)) * 0.6 + np.array([0.13, 0.21, 0.05])
+        for deriv in (0, 1):
+            got = mol.interpolate(fv)(q, deriv=deriv)
+            want = 0
+            for i, a in enumerate(fresh):
+                seg = slice(mol.indices[i], mol.indices[i + 1])
+                want = want + a.interpolate(fv[seg] * mol.aim_weights[seg])(q, deriv=deriv)
+            if not np.allclose(got, want, rtol=1e-9, atol=1e-10):
+                bad[f"{label}, deriv={deriv}"] = dict(max_abs_difference=float(np.max(np.abs(got - want))))
+    return bad
+
+
+def job_molgrid_real(ctx: Ctx):
+    an, ag, bg, ut, mg = _mods()
+    ctx.encoded(mg.MolGrid.interpolate, ag.AtomGrid.interpolate)
+    with unpatched(an, ag, bg, ut, mg):
+        bad = molgrid_real_oracle()
+    (ctx.ok if not bad else ctx.fail)("float code: MolGrid.interpolate == sum of independently built atomic interpolants of w_A f (shared layouts with different rotations, store on/off, deriv 0/1)",
+                                      detail=str(bad)[:300], key="MolGrid.interpolate:real", how="ground enumeration (not a solver obligation)", replay=(lambda m: (True, bad)), **({} if not bad else dict(model={})))
+    ctx.twins_sat += 1
+
+
 def job_molgrid(ctx: Ctx):
     an, ag, bg, ut, mg = install()
     e = ctx.engine
@@ -322,7 +367,15 @@ def job_molgrid(ctx: Ctx):
     for p in e.run(lambda: mg.MolGrid(np.array([1, 8]), ats, aim, store=True).interpolate(f)(q, 1)):
         ctx.paths += 1
         if p.exc is not None:
-            ctx.fail("MolGrid.interpolate evaluates", f"{type(p.exc).__name__}: {str(p.exc)[:200]}", key=key, model={})
+            # the wiring could not be executed on the recording stubs: decided on the float code with real atomic grids instead
+            def rp(m):
+                import subprocess, json
+                out = subprocess.run([sys.executable, "-W", "ignore", "-c", "import json; from harness import C09; print('ORACLE' + json.dumps(C09.molgrid_real_oracle()))"],
+                                     capture_output=True, text=True, env=dict(os.environ, PYTHONPATH=f"{harness.VERIF}:{harness.REPO_SRC}"), cwd=harness.VERIF)
+                line = [l for l in out.stdout.splitlines() if l.startswith("ORACLE")]
+                b_ = json.loads(line[0][6:]) if line else {"oracle process failed": out.stderr[-300:]}
+                return (True, b_) if b_ else (None, dict(note="real-code oracle agrees; the stub run raised", raised=f"{type(p.exc).__name__}: {str(p.exc)[:200]}"))
+            ctx.fail("MolGrid.interpolate evaluates", f"{type(p.exc).__name__}: {str(p.exc)[:200]}", key=key, model={}, replay=rp)
             continue
         want = K(0)
         for i in range(natom):
@@ -337,7 +390,7 @@ def job_molgrid(ctx: Ctx):
 def jobs(tier):
     js = [Job("decompose/lebedev/3,3/symbolic-r", job_decompose, "lebedev", [3, 3], False, False), Job("decompose/lebedev/3,3/r0=0", job_decompose, "lebedev", [3, 3], True, False),
           Job("decompose/maxdet/2,4/mixed", job_decompose, "maxdet", [2, 4], False, True), Job("decompose/lebedev/3,5/mixed", job_decompose, "lebedev", [3, 5], False, True),
-          Job("history/rotate", job_history_rotate), Job("molgrid", job_molgrid)]
+          Job("history/rotate", job_history_rotate), Job("molgrid", job_molgrid), Job("molgrid/real", job_molgrid_real)]
     js += [Job(f"interpolate/{m}", job_interpolate, m) for m in ("value", "radial2", "spherical", "cartesian")]
     if tier == "thorough":
         js += [Job("decompose/maxdet/4,2,4/r0=0", job_decompose, "maxdet", [4, 2, 4], True, True), Job("decompose/spherical/3,5", job_decompose, "spherical", [3, 5], False, True)]
